@@ -133,7 +133,13 @@ def run(ck, facts, tier, only=None):
             return outv[0] if len(outv) == 1 else Tup(outv)
         bh[bname] = cap
     hk2 = dict(hk, **bh)
-    hk2.update({FX + "mut_arrays_remaining_elements": lambda ev, vals, e: Sym("ctor", "Ok", Sym("bool", "true")),
+    def cap_fill(ev, vals, e):
+        captured["M"] = vals[0]
+        return Sym("ctor", "Ok", Sym("bool", "true"))
+    conv_hook = lambda ev, vals, e: Sym("conv", vkey(vals[0]))
+    hk2.update({"impl std::convert::From<&dual::enums::Number> for f64>::from": conv_hook, "impl std::convert::From<&dual::enums::Number> for dual::dual::Dual>::from": conv_hook,
+                "impl std::convert::From<&dual::enums::Number> for dual::dual::Dual2>::from": conv_hook})
+    hk2.update({FX + "mut_arrays_remaining_elements": cap_fill,
                       "dual_ops::convert::set_order_clone": lambda ev, vals, e: Sym("lifted", *[vkey(v) for v in vals])})
     for order, conv in (("Zero", "f64"), ("One", "dual::dual::Dual"), ("Two", "dual::dual::Dual2")):
         try:
@@ -141,6 +147,18 @@ def run(ck, facts, tier, only=None):
             cel.Ev(facts, hooks=hk2).apply_fn(fn, [CUR, RATES, Sym("ctor", order)], 0)
             rates = captured.get("rates_init")
             ok = isinstance(rates, Coll)
+            if not ok and isinstance(captured.get("M"), Arr) and captured["M"].writes:
+                # no builder could be addressed by role: judge the matrix handed to the fill-in — the value written for quote i and the index it is written at
+                w0 = captured["M"].writes[0]
+                q = at(RATES)
+                txt = repr(vkey(w0["val"]))
+                name_i = cel.concat_sym([vkey(Sym("lit", "fx_")), vkey(Sym("display", vkey(fld(q, "pair"))))])
+                idx_ok = [vkey(i_) for i_ in w0["idx"]] == [vkey(Sym("m", "unwrap", vkey(Sym("m", "get_index_of", vkey(CUR), (vkey(fld(q, "pair", k_)),))), ())) for k_ in ("0", "1")]
+                ok2 = repr(vkey(fld(q, "rate"))) in txt and "'lifted'" in txt and repr(vkey(Sym("ctor", order))) in txt and repr(vkey(name_i)) in txt and \
+                    [l_[1] for l_ in w0["loops"]] == [vkey(RATES)] and "'i1'" not in txt and "'q0'" not in txt and idx_ok
+                ck.check(r2, "create_fx_array[%s]" % order, ok2, "quote i is not lifted with the name formatted from pair i (same index on both sides), or it is not written at its own pair's position",
+                         where, detail=txt[:600], sample="M[idx(pair_i)] = set_order_clone(&fx_rates[i].rate, %s, [format!(\"fx_{}\", fx_rates[i].pair)])" % order)
+                continue
             if ok:
                 el = rates.seq.fn(Poly.atom("i0"))
                 # el = From::from(lifted(rate_i, ad, [name_i]))  — conversion to the container's element type
